@@ -75,6 +75,45 @@ func runRouterLike(run func(context.Context) error, running func() chan struct{}
 	<-running()
 }
 
+// forwarder.Publisher: what it reports is what the publisher underneath did (a message is not lost behind a
+// reported success), one enveloped message per message, on the forwarder topic.
+func forwarderPublisherScenario() *explore.Scenario {
+	return &explore.Scenario{Name: "forwarder-publisher/inner-failures", C: -1, DataOnly: true, Body: func() {
+		inner := hx.NewScriptPub("inner")
+		fails := vs.Choose(2, 0, "inner publisher") == 1
+		inner.Outcome = func(int, string, []*message.Message) hx.PubOutcome {
+			if fails {
+				return hx.PubErr
+			}
+			return hx.PubOK
+		}
+		fp := forwarder.NewPublisher(inner, forwarder.PublisherConfig{ForwarderTopic: "fwd"})
+		n := 1 + vs.Choose(3, 0, "batch size")
+		var batch []*message.Message
+		for i := 0; i < n; i++ {
+			batch = append(batch, alphabetMsg(vs.Choose(nAlphabet, 0, "message"), fmt.Sprintf("u%d", i)))
+		}
+		err := fp.Publish("dest", batch...)
+		if (err != nil) != fails {
+			vs.Fail("forwarder-publisher", "inner publisher failed=%v but forwarder.Publisher returned %v", fails, err)
+		}
+		got := 0
+		for _, c := range inner.Snapshot() {
+			if c.Topic != "fwd" {
+				vs.Fail("forwarder-publisher", "published on %q instead of the forwarder topic", c.Topic)
+			}
+			got += len(c.Msgs)
+		}
+		if got != n {
+			vs.Fail("forwarder-publisher", "%d messages published through forwarder.Publisher, %d envelopes handed to the publisher underneath", n, got)
+		}
+		if err := fp.Close(); err != nil || inner.CloseCalls != 1 {
+			vs.Fail("forwarder-publisher", "Close: %v, inner Close calls %d", err, inner.CloseCalls)
+		}
+		vs.Note("n=%d fails=%v", n, fails)
+	}}
+}
+
 // ---- Forwarder -------------------------------------------------------------------------------------------
 
 func forwarderScenario(ackBad bool, n, f, c int) *explore.Scenario {
@@ -489,6 +528,7 @@ func init() {
 	add := func(tier reg.Tier, w int, mk func(t reg.Tier) *explore.Scenario) {
 		reg.AddW("C17", mk(reg.Quick).Name, tier, w, mk)
 	}
+	add(reg.Quick, 1, func(t reg.Tier) *explore.Scenario { return forwarderPublisherScenario() })
 	for _, ack := range []bool{false, true} {
 		ack := ack
 		add(reg.Quick, 5, func(t reg.Tier) *explore.Scenario {
